@@ -5,10 +5,13 @@ import (
 	"bytes"
 	"fmt"
 
+	"github.com/libsv/go-bk/crypto"
 	"github.com/libsv/go-bt/v2/bscript"
 
 	"verif/sim/kernel"
 )
+
+func cryptoHash160(b []byte) []byte { return crypto.Hash160(b) }
 
 // p2pkh builds the 25-byte template by hand (no library code).
 func p2pkh(h20 []byte) []byte {
